@@ -318,4 +318,74 @@ theorem Date.parse_eq (s : Bytes) :
       exact h9 _ _ _ _ _ _ _ _ _ rfl
     simp [n10, n9]
 
+/-! ### no parser panics -/
+
+theorem parseHour_ne_panic (y : Int) (m d off : Nat) (data : Bytes) :
+    Expanded.parseHour y m d off data ≠ .panic := by
+  unfold Expanded.parseHour
+  repeat' split
+  all_goals first | (simp; done) | (simp; split <;> simp)
+
+theorem parseDay_ne_panic (y : Int) (m off : Nat) (data : Bytes) :
+    Expanded.parseDay y m off data ≠ .panic := by
+  unfold Expanded.parseDay
+  repeat' split
+  all_goals first | exact parseHour_ne_panic _ _ _ _ _ | simp
+
+theorem parseRest_ne_panic (y : Int) (data : Bytes) : Expanded.parseRest y data ≠ .panic := by
+  unfold Expanded.parseRest
+  repeat' split
+  all_goals first | exact parseDay_ne_panic _ _ _ _ | simp
+
+theorem Expanded.fromBinary_ne_panic (s : Int) : Expanded.fromBinary s ≠ .panic := by
+  rcases Expanded.fromBinary_cases s with h | ⟨_, _, _, _, _, _, _, _, _, h⟩ <;> rw [h] <;> simp
+
+theorem Expanded.parse_ne_panic (s : Bytes) : Expanded.parse s ≠ .panic := by
+  unfold Expanded.parse
+  repeat' split
+  all_goals first | exact Expanded.fromBinary_ne_panic _ | exact parseRest_ne_panic _ _ | simp
+
+theorem bind_ne_panic {α β : Type} {x : Out α} {f : α → Out β} (hx : x ≠ .panic) (hf : ∀ a, f a ≠ .panic) :
+    x.bind f ≠ .panic := by
+  cases x with
+  | ok a => exact hf a
+  | err => simp
+  | panic => exact absurd rfl hx
+
+theorem Date.fromExpanded_ne_panic (e : Expanded) : Date.fromExpanded e ≠ .panic := by
+  unfold Date.fromExpanded
+  split
+  · simp
+  · rw [Date.fromYmdOpt_eq]; split <;> simp
+
+theorem DateHour.fromExpanded_ne_panic (e : Expanded) : DateHour.fromExpanded e ≠ .panic := by
+  unfold DateHour.fromExpanded
+  rw [DateHour.fromYmdhOpt_eq]; split <;> simp
+
+theorem UniformDate.fromExpanded_ne_panic (e : Expanded) : UniformDate.fromExpanded e ≠ .panic := by
+  unfold UniformDate.fromExpanded
+  split
+  · simp
+  · rw [UniformDate.fromYmdOpt_eq]; split <;> simp
+
+theorem RawDate.fromExpanded_ne_panic (e : Expanded) : RawDate.fromExpanded e ≠ .panic := by
+  unfold RawDate.fromExpanded
+  rw [RawDate.fromYmdhOpt_eq]; split <;> simp
+
+theorem Date.fallback_ne_panic (s : Bytes) : Date.fallback s ≠ .panic :=
+  bind_ne_panic (Expanded.parse_ne_panic s) Date.fromExpanded_ne_panic
+
+theorem Date.parse_ne_panic (s : Bytes) : Date.parse s ≠ .panic := by
+  rw [Date.parse_eq]
+  split
+  · simp
+  · exact Date.fallback_ne_panic s
+
+theorem RawDate.parse_ne_panic (s : Bytes) : RawDate.parse s ≠ .panic := by
+  unfold RawDate.parse
+  refine bind_ne_panic (bind_ne_panic (Expanded.parse_ne_panic s) RawDate.fromExpanded_ne_panic) ?_
+  intro a
+  repeat' split
+  all_goals simp
+
 end Jomini.Date
